@@ -192,6 +192,10 @@ func main() {
 	r.Require("handled_multi_opt", min(200, 4000))
 	r.Require("handled_extended_rcode", min(1000, 20000))
 	r.Require("rr_types_handled", 75)
+	r.Require("mislabelled_opt_handled_equal", min(300, 9000))
+	r.Require("mislabelled_opt_behind_typed_opt_handled_equal", min(150, 4500))
+	r.Require("mislabelled_opt_stale_ttl_handled_equal", min(150, 4500))
+	r.Require("mislabelled_opt_ext_rcode_no_typed_opt_both_refuse", min(100, 3000))
 	r.Require("size_4065-4096", min(150, 3000))
 	r.Require("size_3801-4064", min(150, 3000))
 	r.Require("handled_uncompressed_len_exactly_4096", min(10, 200))
